@@ -848,7 +848,12 @@ def _lexbuf(ctx, lx):
             p = cu.strip_casts(lx, lx.kid(l, 0))
             return p is not None and p['k'] == 'un' and p['op'] == 'post++' and \
                 'lex_buf_ptr' in lx.show(p)
-        writes = [n for n in nodes if is_write(n)]
+        def is_block_write(n):
+            if n['k'] != 'call' or n.get('callee') not in ('memcpy', 'memmove', 'strcpy', 'strncpy'):
+                return False
+            a = lx.call_args(n)
+            return bool(a) and 'lex_buf_ptr' in lx.show(a[0])
+        writes = [n for n in nodes if is_write(n) or is_block_write(n)]
         if not writes:
             continue
         n_actions += 1
@@ -856,6 +861,21 @@ def _lexbuf(ctx, lx):
         bad = []
 
         def step(n, facts):
+            if is_block_write(n):
+                # a block copy into the buffer: its length must be the very strlen(data) that
+                # lex_check_space_ok measured (or a constant within the reserved room)
+                a = lx.call_args(n)
+                ln = cu.strip_casts(lx, a[2]) if len(a) > 2 else None
+                chk = [x[1] for x in facts if isinstance(x, tuple) and x[0] == 'chk']
+                m = [x[1] for x in facts if isinstance(x, tuple) and x[0] == 'room']
+                ok_ = False
+                if ln is not None and ln['k'] == 'call' and ln.get('callee') == 'strlen' and chk:
+                    ok_ = lx.show(cu.strip_casts(lx, lx.call_args(ln)[0])) == chk[0]
+                elif ln is not None and cu.const_of(ln) is not None and m and m[0] != 'all':
+                    ok_ = cu.const_of(ln) <= m[0]
+                if not ok_:
+                    bad.append(n)
+                return facts
             if is_write(n):
                 m = [x[1] for x in facts if isinstance(x, tuple) and x[0] == 'room']
                 cur = m[0] if m else 0
@@ -880,6 +900,7 @@ def _lexbuf(ctx, lx):
                     'lex_check_space_ok' in (tuple(lx.macros(c)) + tuple(m for x in lx.walk(c) for m in lx.macros(x))):
                 # strlen(data) + len >= max - 1 is false: strlen(data) bytes fit
                 room = None
+                data_txt = '?'
                 for x in lx.walk(c):
                     if x['k'] == 'call' and x.get('callee') == 'strlen':
                         a = cu.strip_casts(lx, lx.call_args(x)[0])
@@ -890,8 +911,12 @@ def _lexbuf(ctx, lx):
                             room = len(s2)
                         else:
                             room = 'all'
+                            data_txt = lx.show(a) if a is not None else '?'
                 if room is not None:
-                    return frozenset(x for x in facts if not (isinstance(x, tuple) and x[0] == 'room')) | {('room', room)}
+                    out_ = frozenset(x for x in facts if not (isinstance(x, tuple) and x[0] in ('room', 'chk'))) | {('room', room)}
+                    if room == 'all':
+                        out_ = out_ | {('chk', data_txt)}
+                    return out_
             return facts
         try:
             paths.explore(lx, set(), step, edge, start_block=start, max_states=256)
